@@ -1,7 +1,7 @@
 //! Replay of saved cases and triage of engine crashes.
 
 use super::common::*;
-use crate::history::run_history;
+use crate::history::run_history_for;
 use crate::runner::*;
 use serde_json::{Value, json};
 use std::path::Path;
@@ -55,7 +55,7 @@ pub fn replay_case(prop: &str, case: &Value) -> Option<Vec<(usize, String, Strin
     match kind {
         "history" => {
             let h = history_from_value(case)?;
-            let res = run_history(&h);
+            let res = run_history_for(&h, prop);
             Some(res.failures.iter().map(|(s, f)| (*s, f.clause.clone(), f.detail.clone())).collect())
         }
         _ => super::replay_other(prop, kind, case),
